@@ -193,3 +193,37 @@ def run(F, ctx):
     if not ok:
         ctx.violation(ds[0] + ":R-C17-e:wal-entries-may-survive-the-drop", "delete_shard can return success without removing the shard's entries from the write-ahead log (e.g. when a look at the log *file* finds none - in batched durability mode they are still in the writer's buffer): they reach the file later, are replayed at the next start, and the dropped graph is back with its facts", fd.where(), detail="witness %s" % wit)
     ctx.end_rule()
+
+    # ---- f: graph names that cannot work are refused
+    ctx.rule("R-C17-f", "create_knowledge_graph refuses names that collide with the engine's own directories or contain the shard separator", floor=3)
+    newf = F.syn_fn("new_with_workers", file="src/storage_engine/mod.rs", impl_self="StorageEngine") if any(x["name"] == "new_with_workers" and x.get("impl_self") == "StorageEngine" for x in F.syn["fns"]) else F.syn_fn("new", file="src/storage_engine/mod.rs", impl_self="StorageEngine")
+    reserved = set()
+    for fnrec in [x for x in F.syn["fns"] if x["file"] == "src/storage_engine/mod.rs" and x.get("impl_self") == "StorageEngine" and x["name"] in ("new", "new_with_workers", "with_config")]:
+        for n_ in syn_walk(fnrec["body"]):
+            if n_.get("e") == "mcall" and n_.get("m") == "join" and any(y.get("e") == "path" and y["p"].endswith("data_dir") or y.get("e") == "field" for y in syn_walk(n_["recv"])):
+                for a in n_["args"]:
+                    if a.get("e") == "lit" and a.get("t") == "str" and "data_dir" in str(n_["recv"]):
+                        reserved.add(a["v"])
+    if len(reserved) < 2:
+        raise CheckError("engine directories under data_dir not found (got %s)" % sorted(reserved))
+    ck = F.syn_fn("create_knowledge_graph", file="src/storage_engine/mod.rs", impl_self="StorageEngine")
+    eq_lits, contains_lits = set(), set()
+    for n_ in syn_walk(ck["body"]):
+        if n_.get("e") == "bin" and n_.get("op") == "==":
+            for side in (n_["l"], n_["r"]):
+                if side.get("e") == "lit" and side.get("t") == "str":
+                    eq_lits.add(side["v"])
+        if n_.get("e") == "mcall" and n_.get("m") == "contains":
+            for a in n_["args"]:
+                if a.get("e") == "lit":
+                    contains_lits.add(a["v"])
+    for r_ in sorted(reserved):
+        ok = r_ in eq_lits
+        ctx.site("name `%s` (a directory of the engine under data_dir) is refused" % r_, "src/storage_engine/mod.rs:%s" % ck["line"], ok=ok)
+        if not ok:
+            ctx.violation(SE + "::create_knowledge_graph:R-C17-f:reserved-name-accepted:%s" % r_, "a knowledge graph may be named `%s`, the name of the engine's own directory under the data directory: its graph directory is that directory, and dropping the graph removes it - every other graph's shards, batches and log are gone after the drop" % r_, "src/storage_engine/mod.rs:%s" % ck["line"])
+    ok = ":" in contains_lits
+    ctx.site("names containing the shard separator ':' are refused", "src/storage_engine/mod.rs:%s" % ck["line"], ok=ok)
+    if not ok:
+        ctx.violation(SE + "::create_knowledge_graph:R-C17-f:separator-accepted", "a knowledge graph name may contain ':', the separator of shard names `<graph>:<relation>`: recovery splits at the first ':' and attributes the data of graph `a:b` to a graph `a` that nobody created, and dropping `a` deletes the shards of `a:b`", "src/storage_engine/mod.rs:%s" % ck["line"])
+    ctx.end_rule()
